@@ -191,6 +191,24 @@ def run_property(prop, tier, facts_by_cfg):
     return mod, runs
 
 
+def _norm_summary(f):
+    """what the normal-form pass (mqlint/normalize.py) did to this fact base: differences from the reference tree"""
+    n = getattr(f, "normalization", None) or {}
+    short = lambda x: x.rsplit("::", 1)[-1]
+    return {
+        "renamed_functions": {short(a): short(b) for a, b in (n.get("renamed") or {}).items()},
+        "renamed_types": {short(a): short(b) for a, b in (n.get("renamed_types") or {}).items()},
+        "renamed_variants": n.get("renamed_variants") or {},
+        "renamed_fields": n.get("renamed_fields") or {},
+        "renamed_params": {short(a): b for a, b in (n.get("renamed_params") or {}).items()},
+        "new_functions": [short(x) for x in n.get("new_functions") or []],
+        "inlined_into_callers": len(n.get("inlined") or []),
+        "absorbed": [short(x) for x in n.get("absorbed") or []],
+        "missing_reference_functions": [short(x) for x in n.get("missing_functions") or []],
+        "inlined_consts": [short(x) for x in n.get("inlined_consts") or []],
+    }
+
+
 def summarize(prop, tier, mod, runs, t0, extra_cov=None, extra_fail=None):
     known, fixed = load_known()
     by_key = {}
@@ -284,12 +302,16 @@ def summarize(prop, tier, mod, runs, t0, extra_cov=None, extra_fail=None):
         "functions_named_in_obligations": len(funcs),
         "known_findings_hit": known_hit,
         "undecided_opportunistic": undecided,
+        "normalization": {r.cfg: _norm_summary(r.f) for r in runs},
         "checker_cmd": "./check %s --tier %s" % (prop, tier),
         "trusted_base": [
             "rustc nightly front end, type checker and MIR construction (mir_built)",
             "mqfacts serialisation of MIR to JSON (driver/src/main.rs)",
             "oracle tables transcribed from the MQTT 5.0 OASIS standard (mqlint/oracle.py)",
             "the transparent-callee table of mqlint/core.py (into_future, Pin::new_unchecked, Deref, Try::branch ...)",
+            "the normal-form pass (mqlint/normalize.py): renames accepted on a unique signature match against "
+            "known_fns.json, inlining of functions that are not in the reference list, documented std semantics of "
+            "Try::branch / from_residual for return-site threading",
         ],
         "exhaustive": False,
     }
